@@ -1,4 +1,5 @@
 import Usid.Proofs.Dims
+import Usid.Proofs.UnitValues
 /-! C09 — sizes, change-rate order and unit values are recovered from any regular grid. -/
 namespace Usid.C09
 open Usid Usid.Grid Usid.Dims
@@ -156,15 +157,78 @@ theorem order_is_rate (sizes rate : List Nat) (h : ValidGrid sizes rate)
 def valueMatrix (sizes rate : List Nat) (values : List (List Int)) : List (List Int) :=
   (List.range sizes.length).map (fun d => (gridRow (sizeFn sizes) rate d).map (fun i => (values.getD d []).getD i 0))
 
-/-- FULL statement for unit values (NOT yet proved in Lean; exercised by the correspondence and the oracle on
-    every generated grid): for every regular grid and every storage permutation, `get_unit_values` returns for
-    each dimension exactly its reference values in index order. -/
-def unit_values_statement : Prop :=
-  ∀ (sizes rate : List Nat) (values : List (List Int)) (names : List String),
-    ValidGrid sizes rate → values.length = sizes.length → names.length = sizes.length → names.Nodup →
-    (∀ d (h : d < sizes.length), (values.getD d []).length = sizes.getD d 1) →
+/-- **Unit values.**  For every regular grid (any number of dimensions, sizes >= 1, any storage permutation)
+    with distinct dimension names and, per dimension, as many reference values as its size:
+    `get_unit_values` on the index and value matrices returns, for every dimension, exactly its reference
+    values in index order - every guard of the statement-by-statement model ("not starting with 0",
+    "non constant step sizes", ragged tiles) passes. -/
+theorem unit_values (sizes rate : List Nat) (values : List (List Int)) (names : List String)
+    (h : ValidGrid sizes rate) (hv : values.length = sizes.length) (hn : names.length = sizes.length) (hnd : names.Nodup)
+    (hvl : ∀ d, d < sizes.length → (values.getD d []).length = sizes.getD d 1) :
     Usid.UV.getUnitValues (gridMatrix sizes rate) (valueMatrix sizes rate values) names none (some true) =
-      .ok (names.zip values)
+      .ok (names.zip values) := by
+  obtain ⟨hndr, hpos, hall⟩ := valid_facts sizes rate h
+  unfold Usid.UV.getUnitValues
+  have hl1 : (gridMatrix sizes rate).length = sizes.length := by simp [gridMatrix]
+  have hl2 : (valueMatrix sizes rate values).length = sizes.length := by simp [valueMatrix]
+  have hc : ncols (gridMatrix sizes rate) = ((valueMatrix sizes rate values).headD []).length := by
+    unfold ncols gridMatrix valueMatrix
+    cases hs : sizes with
+    | nil => simp
+    | cons a r => simp [List.range_succ_eq_map]
+  have hall' : names.all (fun nm => names.contains nm) = true := by
+    rw [List.all_eq_true]; intro x hx; simpa using hx
+  -- every row evaluates to its reference values
+  have hrows : mapME (fun nm => Usid.UV.unitValuesRow ((gridMatrix sizes rate).getD (names.findIdx (· == nm)) [])
+      ((valueMatrix sizes rate values).getD (names.findIdx (· == nm)) [])) names =
+      .ok (names.map (fun nm => values.getD (names.findIdx (· == nm)) [])) := by
+    apply Usid.UV.mapME_of_forall
+    intro nm hnm
+    have hd : names.findIdx (· == nm) < sizes.length := by
+      rw [← hn]; exact List.findIdx_lt_length_of_exists ⟨nm, hnm, by simp⟩
+    generalize names.findIdx (· == nm) = d at hd
+    obtain ⟨pre, post, e, hpre⟩ := split_of_mem rate d (hall d hd)
+    have hsz : ∀ x ∈ pre ++ d :: post, 1 ≤ sizeFn sizes x := fun x hx => (hpos x (e ▸ hx)).2
+    have hrow : (gridMatrix sizes rate).getD d [] = Usid.UV.periodicRow (pre.map (sizeFn sizes)).prod (sizeFn sizes d)
+        (post.map (sizeFn sizes)).prod := by
+      unfold gridMatrix
+      rw [List.getD_eq_getElem?_getD, List.getElem?_map, List.getElem?_range hd]
+      simp only [Option.map_some, Option.getD_some]
+      rw [e]; exact Usid.UV.gridRow_periodic _ pre post d hpre
+    have hvrow : (valueMatrix sizes rate values).getD d [] =
+        (List.range ((post.map (sizeFn sizes)).prod * ((pre.map (sizeFn sizes)).prod * sizeFn sizes d))).map
+          (fun r => (values.getD d []).getD (r / (pre.map (sizeFn sizes)).prod % sizeFn sizes d) 0) := by
+      unfold valueMatrix
+      rw [List.getD_eq_getElem?_getD, List.getElem?_map, List.getElem?_range hd]
+      simp only [Option.map_some, Option.getD_some]
+      rw [e, Usid.UV.gridRow_periodic _ pre post d hpre]
+      simp [Usid.UV.periodicRow, List.map_map, Function.comp_def]
+    rw [hrow, hvrow]
+    exact Usid.UV.unitValuesRow_periodic _ _ _ _
+      (prod_pos _ pre (fun x hx => hsz x (List.mem_append_left _ hx)))
+      (hsz d (List.mem_append_right _ List.mem_cons_self))
+      (prod_pos _ post (fun x hx => hsz x (List.mem_append_right _ (List.mem_cons_of_mem _ hx))))
+      (by rw [hvl d hd]; rfl)
+  simp only [hl1, hl2, bne_self_eq_false, hc, Bool.or_self, Bool.false_eq_true, if_false, bind, Except.bind, pure, Except.pure,
+    hn, Option.getD_none, hall', Bool.not_true, if_true, hrows]
+  -- all names are wanted; the rows are the reference values in order
+  have hvals : names.map (fun nm => values.getD (names.findIdx (· == nm)) []) = values := by
+    apply List.ext_getElem
+    · simp [hn, hv]
+    · intro i h1 h2
+      have hi : i < names.length := by simpa using h1
+      simp only [List.getElem_map]
+      have : names.findIdx (· == names[i]) = i := by
+        have := hnd.idxOf_getElem i hi
+        simpa [List.idxOf] using this
+      rw [this]
+      simp [List.getD_eq_getElem?_getD, List.getElem?_eq_getElem h2]
+  rw [hvals]
+  congr 1
+  rw [List.filter_eq_self]
+  intro p hp
+  have := (List.of_mem_zip hp).1
+  simpa using this
 
 /-- FULL statement for rebuilding indices from values (NOT yet proved in Lean): when the values of every
     dimension are pairwise distinct, `create_spec_inds_from_vals` reproduces the index matrix. -/
